@@ -36,7 +36,6 @@ func (vc *VC) scriptSel(only int, sel func(*Obligation) bool, timeoutMs int, sol
 	} else {
 		b.WriteString("(set-option :produce-models true)\n")
 		fmt.Fprintf(&b, "(set-option :timeout %d)\n", timeoutMs)
-		b.WriteString("(set-option :smt.mbqi false)\n")
 		b.WriteString("(set-option :model.compact true)\n")
 	}
 	var body strings.Builder
@@ -45,6 +44,12 @@ func (vc *VC) scriptSel(only int, sel func(*Obligation) bool, timeoutMs int, sol
 		body.WriteByte('\n')
 	}
 	for _, it := range vc.items {
+		if it.probe {
+			if only < 0 {
+				body.WriteString("(echo \"ob -1\")\n(check-sat)\n")
+			}
+			continue
+		}
 		if it.ob == nil {
 			body.WriteString("(assert ")
 			body.WriteString(it.fact)
@@ -143,7 +148,7 @@ func runSolver(cfg SolverCfg, script string, total time.Duration, perCheckMs int
 	// parse
 	sc := bufio.NewScanner(strings.NewReader(res.raw))
 	sc.Buffer(make([]byte, 1<<20), 1<<26)
-	cur := -1
+	cur := -2
 	var model strings.Builder
 	inModel := false
 	for sc.Scan() {
@@ -158,7 +163,7 @@ func runSolver(cfg SolverCfg, script string, total time.Duration, perCheckMs int
 			fmt.Sscanf(strings.Trim(t, "\""), "ob %d", &cur)
 			continue
 		}
-		if cur >= 0 {
+		if cur >= -1 {
 			if _, done := res.results[cur]; !done {
 				switch t {
 				case "sat", "unsat", "unknown", "timeout":
@@ -222,6 +227,9 @@ func (vc *VC) SolveSel(sel func(*Obligation) bool, perCheckMs int, escalate bool
 	total := time.Duration(perCheckMs*n+5000) * time.Millisecond
 	r := runSolver(solverZ3New, sc, total, perCheckMs)
 	per := time.Since(start).Milliseconds() / int64(n)
+	if r.results[-1] == "unsat" {
+		vc.Vacuous = true
+	}
 	for _, ob := range vc.obls {
 		if sel != nil && !sel(ob) {
 			continue
